@@ -105,8 +105,18 @@ type c07Hist struct {
 
 	// Per-history observations for the non-triviality rule.
 	hostileDone   bool
+	firstSeq      int
+	nextSeq       int
 	sawLocations  int
 	crossingWalks int
+}
+
+// appendLive adds a recorded entry to the shadow.
+func (h *c07Hist) appendLive(e *c07Entry) {
+	e.seq = h.nextSeq
+	h.nextSeq++
+	h.live = append(h.live, e)
+	h.byTime[e.Nano] = e
 }
 
 func (h *c07Hist) opf(format string, args ...any) {
@@ -114,13 +124,12 @@ func (h *c07Hist) opf(format string, args ...any) {
 }
 
 func (h *c07Hist) loc(e *c07Entry) string {
-	for i, x := range h.live {
-		if x == e {
-			return h.locIdx(i)
-		}
+	i := e.seq - h.firstSeq
+	if i < 0 || i >= len(h.live) || h.live[i] != e {
+		return "gone"
 	}
 
-	return "gone"
+	return h.locIdx(i)
 }
 
 func (h *c07Hist) locIdx(i int) string {
@@ -158,11 +167,14 @@ func (h *c07Hist) tag(ns int64) string {
 }
 
 func (h *c07Hist) tags(ts []int64) (out []string) {
-	for _, t := range ts {
+	for i, t := range ts {
+		if len(ts) > 120 && i == 60 {
+			out = append(out, fmt.Sprintf("... %d more ...", len(ts)-119))
+		}
+		if len(ts) > 120 && i >= 60 && i < len(ts)-59 {
+			continue
+		}
 		out = append(out, h.tag(t))
-	}
-	if len(out) > 120 {
-		out = append(out[:60:60], append([]string{"..."}, out[len(out)-59:]...)...)
 	}
 
 	return out
@@ -508,6 +520,7 @@ func (h *c07Hist) reconcile(op string, mode int, force bool) {
 			h.rec.Events["entries_aged_out"] += h.nR
 			h.rec.Events["rotations_performed"]++
 			h.live = append([]*c07Entry(nil), h.live[h.nR:]...)
+			h.firstSeq += h.nR
 			h.nR, h.nF = h.nF, 0
 			h.opf("  -> rotated: current file became the rotated file")
 
@@ -630,7 +643,7 @@ func (h *c07Hist) opAdd(k int) {
 			h.rec.Events["queries_submitted_while_disabled"]++
 			h.opf("add(disabled) %s", e)
 		} else {
-			h.live = append(h.live, e)
+			h.appendLive(e)
 			h.byTime[e.Nano] = e
 			h.rec.Events["entries_recorded"]++
 			h.rec.Classes["reason:"+c07ReasonNames[e.Reason]]++
@@ -692,6 +705,7 @@ func (h *c07Hist) opClear() {
 		h.gone[e.Nano] = "cleared"
 	}
 	h.live = nil
+	h.firstSeq = h.nextSeq
 	h.byTime = map[int64]*c07Entry{}
 	h.reconcile("clear", c07Cleared, true)
 }
@@ -827,7 +841,7 @@ func (h *c07Hist) checkSeq(kind string, p *c07Page, must, may func(e *c07Entry) 
 				why = "never-recorded"
 			}
 			h.violate(kind+":returned-entry-that-is-"+why, "the result holds an entry that must not be listed",
-				wit(map[string]any{"entry": p.Data[i]}))
+				wit(map[string]any{"entry_time": time.Unix(0, t).UTC().Format(time.RFC3339Nano)}))
 
 			return false
 		case seen[t]:
@@ -913,9 +927,19 @@ func (h *c07Hist) walkCursor(class string, base url.Values, limit int, full []in
 	}
 	var pages []pageInfo
 	cursor := ""
+	lastOldest := ""
+	emptyWithCursor := 0
 	crossMF, crossFR := false, false
+	pageMax := limit
+	if limit == 0 {
+		// No limit parameter: the documented default.
+		pageMax = 500
+	}
+	// A page either returns an entry or has scanned the 50000 file records a
+	// request without offset looks at.
+	maxPages := len(full) + 3 + (h.nR+h.nF)/40000
 	for n := 0; ; n++ {
-		if n > len(full)+3 {
+		if n > maxPages {
 			h.violate(class+":no-termination", "the cursor walk does not end", map[string]any{
 				"limit": limit, "pages_requested": n, "full_listing": h.tags(full), "walk": h.tags(got)})
 
@@ -925,7 +949,9 @@ func (h *c07Hist) walkCursor(class string, base url.Values, limit int, full []in
 		for k, v := range base {
 			q[k] = v
 		}
-		q.Set("limit", strconv.Itoa(limit))
+		if limit != 0 {
+			q.Set("limit", strconv.Itoa(limit))
+		}
 		var cns int64
 		if cursor != "" {
 			q.Set("older_than", cursor)
@@ -941,12 +967,13 @@ func (h *c07Hist) walkCursor(class string, base url.Values, limit int, full []in
 		if p == nil {
 			return
 		}
-		if len(p.Times) > limit {
+		if len(p.Times) > pageMax {
 			h.violate(class+":page-over-limit", "a page holds more entries than the limit", map[string]any{
 				"request": p.Query, "returned": h.tags(p.Times)})
 
 			return
 		}
+		lastOldest = p.Oldest
 		if cursor != "" && len(full) > len(got) {
 			// The page that follows this cursor has to start in another
 			// location than the one the cursor's entry is in.
@@ -959,14 +986,26 @@ func (h *c07Hist) walkCursor(class string, base url.Values, limit int, full []in
 			}
 		}
 		pages = append(pages, pageInfo{cursor: cns, start: len(got)})
-		if len(p.Times) == 0 {
-			break
-		}
 		got = append(got, p.Times...)
-		cursor = p.Oldest
-		if cursor == "" {
+		if p.Oldest == "" {
+			// The end of the log.
 			break
 		}
+		if len(p.Times) == 0 {
+			// Nothing found among the records this request scanned; the
+			// cursor says where to go on.
+			emptyWithCursor++
+		}
+		if p.Oldest == cursor {
+			h.violate(class+":cursor-does-not-advance", "a page returns the cursor it was requested with", map[string]any{
+				"request": p.Query, "oldest": p.Oldest, "returned": h.tags(p.Times)})
+
+			return
+		}
+		cursor = p.Oldest
+	}
+	if emptyWithCursor > 0 {
+		h.rec.Events["cursor_walk_pages_empty_but_with_cursor"] += emptyWithCursor
 	}
 	if crossMF {
 		h.rec.Events["cursor_walks_crossing_memory_to_file"]++
@@ -1007,12 +1046,17 @@ func (h *c07Hist) walkCursor(class string, base url.Values, limit int, full []in
 		kind, subject = "duplicate", got[i]
 	} else if i < len(full) && inGot[full[i]] > 0 {
 		kind = "order"
+	} else if i == len(got) {
+		// The walk is a proper prefix of the listing.
+		kind = "ended-early"
 	}
 	h.violate(fmt.Sprintf("%s:%s:cursor-in-%s:entry-in-%s", class, kind, cursorLoc, h.locOfTime(subject)),
 		"paging with the returned older_than cursor does not partition the listing", map[string]any{
 			"limit": limit, "base_query": base.Encode(), "full_listing": h.tags(full), "walk": h.tags(got),
 			"first_difference_at": i, "cursor_of_that_page": h.tag(pg.cursor), "entry": h.tag(subject),
-			"entry_time": time.Unix(0, subject).UTC().Format(time.RFC3339Nano),
+			"entry_time":      time.Unix(0, subject).UTC().Format(time.RFC3339Nano),
+			"pages_requested": len(pages), "oldest_value_of_the_last_page": lastOldest,
+			"pages_without_entries_but_with_a_cursor": emptyWithCursor,
 		})
 }
 
@@ -1272,6 +1316,8 @@ func (h *c07Hist) verify(level int, label string) {
 		}
 	}
 
+	h.probeForeignOlderThan(full)
+
 	// Searches and status filters.
 	ns := 8
 	if level > 0 {
@@ -1415,6 +1461,319 @@ func (h *c07Hist) verify(level int, label string) {
 	}
 }
 
+// probeForeignOlderThan sends older_than values that are not the time of any
+// entry: between two neighbours of the listing, between the rotated and the
+// current file, between the file and the memory.  Such a value is not a
+// "returned cursor", so only what holds under any reading is asserted: no
+// crash, and everything returned is a listed entry older than the value,
+// newest first.  Whether all of them are returned is counted, not asserted.
+func (h *c07Hist) probeForeignOlderThan(full []int64) {
+	var xs []int64
+	mid := func(newer, older int64) {
+		if newer-older >= 2 {
+			xs = append(xs, older+(newer-older)/2)
+		}
+	}
+	if len(full) >= 2 {
+		i := h.rng.Intn(len(full) - 1)
+		mid(full[i], full[i+1])
+	}
+	if h.nR > 0 && h.nF > 0 {
+		mid(h.live[h.nR].Nano, h.live[h.nR-1].Nano)
+	}
+	if nd := h.nR + h.nF; nd > 0 && nd < len(h.live) {
+		mid(h.live[nd].Nano, h.live[nd-1].Nano)
+	}
+	xs = append(xs, full[0]+1)
+	for _, x := range xs {
+		lim := []int{1, 3, 20}[h.rng.Intn(3)]
+		q := url.Values{"older_than": {time.Unix(0, x).UTC().Format(time.RFC3339Nano)}, "limit": {strconv.Itoa(lim)}}
+		p := h.getRaw("older-than-foreign", q.Encode(), false)
+		if p == nil || p.Code != http.StatusOK {
+			continue
+		}
+		h.rec.Events["older_than_values_that_are_no_entry_time"]++
+		ok := h.checkSeq("older-than-foreign", p, func(*c07Entry) bool { return false },
+			func(e *c07Entry) bool { return e.Nano < x }, map[string]any{"older_than_ns": x})
+		if !ok {
+			continue
+		}
+		var want []int64
+		for _, t := range full {
+			if t < x && len(want) < lim {
+				want = append(want, t)
+			}
+		}
+		if c07EqualTimes(p.Times, want) {
+			h.rec.Events["older_than_values_that_are_no_entry_time_answered_completely"]++
+		} else {
+			h.rec.Unspec["older_than that is not the time of an entry: not all older entries are returned"]++
+		}
+	}
+}
+
+// getTimes is a light variant of get for very long pages: only the times and
+// the cursor are decoded.
+func (h *c07Hist) getTimes(class string, q url.Values) (times []int64, oldest string, ok bool) {
+	h.rec.Events["requests"]++
+	raw := q.Encode()
+	code, body, cok := h.call(class, "GET /control/querylog", raw, nil)
+	if !cok {
+		return nil, "", false
+	}
+	var resp struct {
+		Data []struct {
+			Time string `json:"time"`
+		} `json:"data"`
+		Oldest *string `json:"oldest"`
+	}
+	if code != http.StatusOK || json.Unmarshal(body, &resp) != nil || resp.Oldest == nil {
+		h.violate("bad-response:"+class, fmt.Sprintf("answer to %q is not 200 {data:[...], oldest:\"...\"}", raw),
+			map[string]any{"request": raw, "code": code, "body": c07Trunc(string(body), 300)})
+
+		return nil, "", false
+	}
+	for _, d := range resp.Data {
+		t, err := time.Parse(time.RFC3339Nano, d.Time)
+		if err != nil {
+			h.violate("bad-response:entry-time:"+class, "an entry has no valid time", map[string]any{"request": raw})
+
+			return nil, "", false
+		}
+		times = append(times, t.UnixNano())
+	}
+
+	return times, *resp.Oldest, true
+}
+
+// addSimple records one handcrafted query.
+func (h *c07Hist) addSimple(host, ip, cid string, blocked, logOp bool) {
+	time.Sleep(time.Duration(1 + h.rng.Intn(3)))
+	p, e := c07Simple(h.world, h.serial, host, ip, cid, blocked)
+	h.serial++
+	e.T = time.Now()
+	e.Nano = e.T.UnixNano()
+	h.inst.l.Add(p)
+	h.appendLive(e)
+	h.rec.Events["entries_recorded"]++
+	if logOp {
+		h.opf("add %s", e)
+	}
+}
+
+func (h *c07Hist) addBulk(n int) {
+	h.opf("add %d consecutive queries for common.example from 10.0.0.1 (no ClientID, not filtered), 1-3 ns apart, #%d..#%d",
+		n, h.serial, h.serial+n-1)
+	for i := 0; i < n && !h.dead; i++ {
+		h.addSimple("common.example", "10.0.0.1", "", false, false)
+	}
+	// The sleep before every record has let each automatic flush finish.
+	synctest.Wait()
+}
+
+// runScan is a history about the limit of 50000 file records that one request
+// without offset scans: more than 50000 consecutive records that do not match
+// lie on top of a few that do.  variant 0: the matching ones are the oldest of
+// the current file; 1: they are in the rotated file; 2: they sit right at the
+// 50000th scanned record.
+func (h *c07Hist) runScan(variant int) {
+	defer os.RemoveAll(h.dir)
+	h.newInst()
+	if h.dead {
+		return
+	}
+	h.opf("new instance mem_size=%d rotation_ivl=%s (scan-limit history, variant %d)", h.memSize, h.ivl, variant)
+	rare := func(n int) {
+		for i := 0; i < n; i++ {
+			h.addSimple("rare.example", "10.9.9.9", "rare-cli", true, true)
+		}
+	}
+	guardOK := h.guard("bulk-add", func() {
+		switch variant {
+		case 0:
+			h.addBulk(h.rng.Intn(300))
+			rare(3)
+			h.addBulk(50010 + h.rng.Intn(9990))
+		case 1:
+			rare(2)
+			h.addBulk(100 + h.rng.Intn(300))
+			rare(1)
+			h.addBulk(h.rng.Intn(200))
+		default:
+			h.addBulk(200 + h.rng.Intn(300))
+			rare(3)
+			// The newest of the three is the 49997th..50001st record from the
+			// end of the file.
+			h.addBulk(49996 + h.rng.Intn(5))
+		}
+	})
+	if !guardOK {
+		return
+	}
+	h.opFlush()
+	if variant == 1 && !h.dead {
+		time.Sleep(h.ivl + time.Minute)
+		h.opf("advance %s, rotation check", h.ivl+time.Minute)
+		before := h.rec.Events["rotations_performed"]
+		if !h.guard("checkAndRotate", func() { h.inst.l.checkAndRotate(context.Background()) }) {
+			return
+		}
+		synctest.Wait()
+		h.reconcile("rotate", c07MayRotate, true)
+		if h.rec.Events["rotations_performed"] == before {
+			h.rec.Inconcl = append(h.rec.Inconcl, "scan-limit history: the log did not rotate one interval after its first record")
+
+			return
+		}
+		if !h.guard("bulk-add", func() { h.addBulk(50010 + h.rng.Intn(9990)) }) {
+			return
+		}
+		h.opFlush()
+	}
+	if h.dead {
+		return
+	}
+	// Some matching entries in memory on top.
+	for n := h.rng.Intn(3); n > 0; n-- {
+		h.addSimple("rare.example", "10.9.9.9", "rare-cli", true, true)
+	}
+	synctest.Wait()
+	h.reconcile("add", c07NoFlush, true)
+	if h.dead {
+		return
+	}
+	h.opf("verify (scan limit) rotated=%d file=%d memory=%d", h.nR, h.nF, len(h.live)-h.nR-h.nF)
+	h.rec.Events["verifications"]++
+	h.rec.Events["scan_limit_histories"]++
+	h.sawLocations = 0
+	for _, n := range []int{h.nR, h.nF, len(h.live) - h.nR - h.nF} {
+		if n > 0 {
+			h.sawLocations++
+		}
+	}
+
+	// The whole log by cursor, without search.
+	all := make([]int64, 0, len(h.live))
+	for i := len(h.live) - 1; i >= 0; i-- {
+		all = append(all, h.live[i].Nano)
+	}
+	for _, lim := range []int{c07BigLimit, 20000} {
+		var got []int64
+		cursor := ""
+		pages := 0
+		for ; pages < 12; pages++ {
+			q := url.Values{"limit": {strconv.Itoa(lim)}}
+			if cursor != "" {
+				q.Set("older_than", cursor)
+			}
+			times, oldest, ok := h.getTimes("scan-listing", q)
+			if !ok {
+				return
+			}
+			got = append(got, times...)
+			if oldest == "" || oldest == cursor {
+				break
+			}
+			cursor = oldest
+		}
+		h.rec.Events["cursor_walks"]++
+		h.rec.Events["scan_limit_listing_walks"]++
+		h.rec.Events["scan_limit_listing_pages"] += pages + 1
+		if !c07EqualTimes(got, all) {
+			i := 0
+			for i < len(got) && i < len(all) && got[i] == all[i] {
+				i++
+			}
+			kind, subject := "gap", int64(0)
+			switch {
+			case i == len(got):
+				kind, subject = "ended-early", all[i]
+			case i == len(all):
+				kind, subject = "duplicate", got[i]
+			default:
+				subject = all[i]
+			}
+			lo, hi := max(0, i-3), min(len(all), i+4)
+			h.violate("scan-listing:"+kind+":entry-in-"+h.locOfTime(subject),
+				"a cursor walk over a log with more than 50000 file records does not return the log", map[string]any{
+					"limit": lim, "pages": pages + 1, "entries_returned": len(got), "entries_expected": len(all),
+					"first_difference_at": i, "expected_around_there": h.tags(all[lo:hi]),
+					"returned_around_there": h.tags(got[max(0, min(len(got), i)-3):min(len(got), i+4)]),
+				})
+
+			return
+		}
+	}
+
+	// Searches for the rare entries, paged by the returned cursor.
+	reqs := []struct {
+		term   *c07Term
+		status string
+		limits []int
+	}{
+		{&c07Term{Raw: "rare", Value: "rare", Kind: "host-substring"}, "", []int{1, 2, 0}},
+		{&c07Term{Raw: `"rare.example"`, Value: "rare.example", Strict: true, Kind: "host-exact"}, "", []int{1, 500}},
+		{&c07Term{Raw: "rare-cli", Value: "rare-cli", Kind: "clientid"}, "", []int{1, 0}},
+		{&c07Term{Raw: "Rare Box", Value: "Rare Box", Kind: "client-name"}, "", []int{2, 0}},
+		{&c07Term{Raw: `"10.9.9.9"`, Value: "10.9.9.9", Strict: true, Kind: "ip"}, "", []int{0}},
+		{nil, "blocked", []int{1, 0}},
+		{&c07Term{Raw: "rare", Value: "rare", Kind: "host-substring"}, "filtered", []int{0}},
+		{&c07Term{Raw: "zzqq", Value: "zzqq", Kind: "no-match"}, "", []int{0}},
+	}
+	for _, r := range reqs {
+		base := url.Values{}
+		class := "scan-search"
+		if r.term != nil {
+			base.Set("search", r.term.Raw)
+			class += ":" + r.term.Kind
+			h.rec.Classes["search:"+r.term.Kind]++
+		}
+		if r.status != "" {
+			base.Set("response_status", r.status)
+			class += ":status-" + r.status
+			h.rec.Classes["status:"+r.status]++
+		}
+		var want []int64
+		for i := len(h.live) - 1; i >= 0; i-- {
+			e := h.live[i]
+			if r.term != nil && !r.term.match(e, true, false) {
+				continue
+			}
+			if m, _ := c07StatusMustMay(r.status, e); r.status != "" && !m {
+				continue
+			}
+			want = append(want, e.Nano)
+		}
+		for _, lim := range r.limits {
+			if h.dead {
+				return
+			}
+			before := len(h.rec.Viols)
+			pagesBefore := h.rec.Events["cursor_walk_pages_empty_but_with_cursor"]
+			h.walkCursor(class, base, lim, want)
+			h.rec.Events["scan_limit_search_walks"]++
+			if h.rec.Events["cursor_walk_pages_empty_but_with_cursor"] > pagesBefore {
+				h.rec.Events["scan_limit_search_walks_with_an_empty_page_that_carries_a_cursor"]++
+			}
+			if len(h.rec.Viols) > before {
+				return
+			}
+		}
+		h.rec.Events["searches"]++
+		if len(want) > 0 {
+			h.rec.Events["searches_with_matches"]++
+		}
+	}
+	// The objects of the rare entries.
+	q := url.Values{"search": {"rare"}, "offset": {"0"}, "limit": {"100"}}
+	if p := h.get("scan-search:offset", q); p != nil {
+		mustRare := func(e *c07Entry) bool { return e.Host == "rare.example" }
+		if h.checkSeq("scan-search:offset", p, mustRare, mustRare, nil) {
+			h.checkEntries(p)
+		}
+	}
+}
+
 // run executes one history.
 func (h *c07Hist) run(target int, large bool) {
 	defer os.RemoveAll(h.dir)
@@ -1481,7 +1840,7 @@ func (h *c07Hist) run(target int, large bool) {
 	}
 }
 
-func c07RunHistory(rep *verifkit.Report, id int, base string, large bool) (rec *c07Rec) {
+func c07RunHistory(rep *verifkit.Report, id int, base string, large bool, scan int) (rec *c07Rec) {
 	rec = c07NewRec()
 	rng := rep.Rand(fmt.Sprintf("history-%d", id))
 	dir, err := os.MkdirTemp(base, fmt.Sprintf("c07-%d-", id))
@@ -1517,7 +1876,15 @@ func c07RunHistory(rep *verifkit.Report, id int, base string, large bool) (rec *
 	if rng.Intn(6) == 0 {
 		h.anonymize = true
 	}
-	h.run(target, large)
+	if scan >= 0 {
+		h.world = &c07World{clients: map[string]*Client{"10.9.9.9": {Name: "Rare Box"}}}
+		h.anonymize = false
+		h.memSize = []uint{15000, 20000, 30000}[rng.Intn(3)]
+		h.runScan(scan)
+		rec.Classes[fmt.Sprintf("history_scan_limit_variant_%d", scan)]++
+	} else {
+		h.run(target, large)
+	}
 
 	rec.Canon = verifkit.Hash(strings.Join(h.ops, "\n"))
 	rec.Nontrivial = h.sawLocations >= 2 && h.crossingWalks >= 1
@@ -1539,8 +1906,11 @@ func c07RunHistory(rep *verifkit.Report, id int, base string, large bool) (rec *
 	return rec
 }
 
-// c07Plan returns the number of ordinary and of large-file histories.
-func c07Plan() (n, nLarge int) { return verifkit.Pick(120, 3000), verifkit.Pick(0, 12) }
+// c07Plan returns the number of ordinary, of large-file and of scan-limit
+// histories.
+func c07Plan() (n, nLarge, nScan int) {
+	return verifkit.Pick(120, 3000), verifkit.Pick(0, 12), verifkit.Pick(3, 9)
+}
 
 // c07Worker runs histories, one after the other, and writes one JSON line per
 // history.
@@ -1558,9 +1928,9 @@ func c07Worker(t *testing.T, rep *verifkit.Report, spec, out string) {
 	}
 	defer f.Close()
 	base := filepath.Dir(out)
-	n, nLarge := c07Plan()
+	n, nLarge, nScan := c07Plan()
 	enc := json.NewEncoder(f)
-	for i := 0; i < n+nLarge; i++ {
+	for i := 0; i < n+nLarge+nScan; i++ {
 		// The workers share the histories: whoever creates the claim file
 		// of a history runs it.  Which worker runs which history does not
 		// influence the result.
@@ -1569,14 +1939,17 @@ func c07Worker(t *testing.T, rep *verifkit.Report, spec, out string) {
 			continue
 		}
 		_ = claim.Close()
-		// Large histories first: they take longest.
-		id, large := i-nLarge, false
-		if i < nLarge {
-			id, large = n+i, true
+		// Scan-limit and large histories first: they take longest.
+		id, large, scan := i-nLarge-nScan, false, -1
+		switch {
+		case i < nScan:
+			id, scan = n+nLarge+i, i%3
+		case i < nScan+nLarge:
+			id, large = n+i-nScan, true
 		}
 		var rec *c07Rec
 		synctest.Run(func() {
-			rec = c07RunHistory(rep, id, base, large)
+			rec = c07RunHistory(rep, id, base, large, scan)
 		})
 		rec.I = i
 		if err = enc.Encode(rec); err != nil {
@@ -1636,8 +2009,8 @@ func TestVerifC07(t *testing.T) {
 		return
 	}
 	defer os.RemoveAll(base)
-	n, nLarge := c07Plan()
-	total := n + nLarge
+	n, nLarge, nScan := c07Plan()
+	total := n + nLarge + nScan
 	workers := runtime.GOMAXPROCS(0)
 	if workers > 16 {
 		workers = 16
@@ -1756,6 +2129,7 @@ func TestVerifC07(t *testing.T) {
 		{"cursor_walks_crossing_memory_to_file", 20}, {"cursor_walks_crossing_file_to_rotated", 20},
 		{"flushes_observed", 20}, {"rotations_performed", 10}, {"restarts", 10}, {"searches_with_matches", 100},
 		{"entry_json_identical_after_move_memory_to_file", 50},
+		{"scan_limit_search_walks_with_an_empty_page_that_carries_a_cursor", 4}, {"scan_limit_listing_walks", 4},
 	} {
 		if got := rep.EventCount(need.event); got < need.min {
 			rep.Inconcl(fmt.Sprintf("only %d %s events (need %d)", got, need.event, need.min))
